@@ -423,10 +423,14 @@ class UnaryStringOperation(Node):
 class PropertyAccessorOperation(Node):
     """This class represents a property access in the AST"""
     
-    def __init__(self, obj: Node, name: str, position: int):
+    def __init__(self, obj: Node, name: str, position: int,
+                 explicit_obj: bool = False):
         super().__init__('accessor', position)
         self.obj: Node = obj
         self.prop: str = name
+        # True when the object was written in the source ('the P of obj');
+        # False for the owner nodes the opcodes create (_movie, tell_obj...)
+        self.explicit_obj: bool = explicit_obj
         
     def generate_lingo(self, indentation: int) -> str:
         obj_str = self.obj.generate_lingo(indentation)
@@ -435,14 +439,15 @@ class PropertyAccessorOperation(Node):
             # node the opcode creates); 'the P of me' on a variable called
             # 'me' keeps its object
             return vsprintf('%s', self.prop)
-        elif obj_str.startswith('_') or obj_str == 'tell_obj':
+        elif (not self.explicit_obj
+              and (obj_str.startswith('_') or obj_str == 'tell_obj')):
             return vsprintf('the %s', self.prop)
         else:
             return vsprintf("the %s of %s", self.prop, obj_str)
 
     def generate_js(self, indentation: int, factory_method: bool) -> str:
         obj_str = self.obj.generate_js(indentation, factory_method)
-        if obj_str == 'tell_obj':
+        if obj_str == 'tell_obj' and not self.explicit_obj:
             return vsprintf('%s', self.prop)
         else:
             return vsprintf("%s.%s", js_receiver(obj_str), self.prop)
